@@ -13,7 +13,7 @@ Open Scope Z_scope.
 Definition fo0 : float_oracle := fun _ => None.
 Definition nd (n : string) : item := Item (S n) [] None None [].
 
-(** FULL STATEMENT (not provable for the current code, see the _refuted theorems):
+(** FULL STATEMENT (not provable for the current code, see C04_refuted_double_close):
       forall fo braces a, wf fo a = true -> has_branch_mult a = false ->
         read_cgsmiles fo (print braces a) = denote fo a. *)
 
@@ -24,20 +24,19 @@ Proof.
   exists [Item (S "A") [] None None [Branch [Item (S "B") [] None None [Branch [nd "C"] None None]] None None]; nd "D"].
   vm_compute. repeat split; discriminate.
 Qed.
-(** [#A]%12[#B][#C]%12 (a coarse fragment text, no braces): the final %nn marker is never closed *)
-Theorem C04_refuted_pct_at_end : exists a,
-  wf fo0 a = true /\ class_C04 false a = 2%nat /\ model_C04 fo0 false a <> 0%nat.
-Proof.
-  exists [Item (S "A") [(None, MPct [1%nat; 2%nat])] None None []; nd "B"; Item (S "C") [(None, MPct [1%nat; 2%nat])] None None []].
-  vm_compute. repeat split; discriminate.
-Qed.
-(** {[#A]|3=[#B]}: ValueError, the symbol is swallowed by the count *)
-Theorem C04_refuted_nodemult_sym : exists a,
-  wf fo0 a = true /\ class_C04 true a = 3%nat /\ model_C04 fo0 true a <> 0%nat.
-Proof.
-  exists [Item (S "A") [] (Some [3%nat]) (Some SDouble) []; nd "B"].
-  vm_compute. repeat split; discriminate.
-Qed.
+(** repaired (fix fd2fb55): [#A]%12[#B][#C]%12, a coarse fragment text without braces ending in a %nn marker,
+    is read as the triangle it denotes *)
+Example C04_fixed_pct_at_end :
+  let a := [Item (S "A") [(None, MPct [1%nat; 2%nat])] None None []; nd "B"; Item (S "C") [(None, MPct [1%nat; 2%nat])] None None []] in
+  wf fo0 a = true /\ model_C04 fo0 false a = 0%nat
+  /\ exists g, read_cgsmiles fo0 (print false a) = Ok g /\ length (edges_data g) = 3%nat.
+Proof. vm_compute. repeat split. eexists. split; reflexivity. Qed.
+(** repaired (fix f80d9d3): {[#A]|3=[#B]}, the symbol behind the count is the bond leaving the last copy *)
+Example C04_fixed_nodemult_sym :
+  let a := [Item (S "A") [] (Some [3%nat]) (Some SDouble) []; nd "B"] in
+  wf fo0 a = true /\ model_C04 fo0 true a = 0%nat
+  /\ exists g, read_cgsmiles fo0 (print true a) = Ok g /\ edge_get g 2 3 (S "order") = Some (VInt 2) /\ edge_get g 0 1 (S "order") = Some (VInt 1).
+Proof. vm_compute. repeat split. eexists. repeat split. Qed.
 
 (** UNBOUNDED, partial.  For every flat string of the grammar (Reader/Lin.v: chains, node
     multipliers without a following symbol, nested branches in which no node closes two branches, every
@@ -51,15 +50,14 @@ Proof. exact reader_sim_lin. Qed.
 Theorem C04_partial_flat : forall fo a, flat_ok fo a = true -> read_cgsmiles fo (print true a) = denote fo a.
 Proof. exact reader_sim_ast. Qed.
 (** THE HEADLINE, UNBOUNDED: for every base-graph string of the documented grammar (well-formed AST, printed
-    in braces, node multipliers allowed) that lies outside the defect classes double_close and nodemult_sym
-    and carries no branch multiplier (those are C05's subject), the reader model returns exactly the denoted
-    graph.  This is the full statement of C04 minus the named classes. *)
+    in braces, node multipliers with or without a following symbol) in which no node closes two branches
+    (the one remaining defect class, double_close) and that carries no branch multiplier (those are C05's
+    subject), the reader model returns exactly the denoted graph. *)
 Theorem C04_partial_wf : forall fo a, wf fo a = true -> has_branch_mult a = false ->
-  cls_double_close a = false -> cls_nodemult_sym a = false ->
-  read_cgsmiles fo (print true a) = denote fo a.
-Proof. intros fo a H1 H2 H3 H4. apply reader_sim_ast. now apply flat_ok_of_wf. Qed.
-(** THE SAME FOR BOTH KINDS OF TEXT (base graphs in braces, coarse fragment texts without), with the defect
-    classes as the check numbers them: class_C04 = 0 means outside double_close, pct_at_end, nodemult_sym *)
+  cls_double_close a = false -> read_cgsmiles fo (print true a) = denote fo a.
+Proof. intros fo a H1 H2 H3. apply reader_sim_ast. now apply flat_ok_of_wf. Qed.
+(** THE SAME FOR BOTH KINDS OF TEXT (base graphs in braces, coarse fragment texts without, also when they
+    end in a %nn marker), with the defect class as the check numbers it: class_C04 = 0 means outside double_close *)
 Theorem C04_partial : forall fo braces a, wf fo a = true -> has_branch_mult a = false -> class_C04 braces a = 0%nat ->
   read_cgsmiles fo (print braces a) = denote fo a.
 Proof. exact reader_sim_C04. Qed.
@@ -83,8 +81,8 @@ Theorem C04_flat_covers_small :
 Proof. exact C04_flat_small_list. Qed.
 
 (** BOUNDED: every AST of the complete enumerated list [small_c04] (bound = the enumerator parameters
-    recorded in Gen/ReaderEnumGen.v and Reader/ReaderSmall.v) is in the grammar, and outside the three
-    defect classes the model returns exactly the denoted graph (same iteration orders) *)
+    recorded in Gen/ReaderEnumGen.v and Reader/ReaderSmall.v) is in the grammar, and outside the
+    defect class the model returns exactly the denoted graph (same iteration orders) *)
 Theorem C04_small : forallb (fun a => wf fo_none a && c04_ok a) small_c04 = true.
 Proof. exact C04_small_list. Qed.
 Theorem C04_small_not_vacuous : (5000 <=? length (filter (fun a => Nat.eqb (class_C04 true a) 0) small_c04))%nat = true.
@@ -97,5 +95,3 @@ Print Assumptions C04_partial.
 Print Assumptions C04_partial_flat.
 Print Assumptions C04_small.
 Print Assumptions C04_refuted_double_close.
-Print Assumptions C04_refuted_pct_at_end.
-Print Assumptions C04_refuted_nodemult_sym.
